@@ -25,6 +25,28 @@ NA = {
  "C19": "check not built yet in this session (planned: differential PBT of the two cargo feature builds); see DESIGN.md section 3 C19",
  "C20": "check not built yet in this session (planned: schema-driven differential PBT of all message types); see DESIGN.md section 3 C20",
 }
+WHAT = {
+ "C01": "Histories of 30-80 ops (stakes, unstakes, submissions, withdrawals, operator deliveries, all IBC outcomes, recoveries, config changes, sweep) executed against a chain simulator; after every step State.total_native_token is compared with F-E-S+R computed from the simulator's own ledgers and with the staker-side ledger.",
+ "C02": "Same engine; the contract's bank balance is compared after every step with unwithdrawn batches + fees (model's and the contract's own figure) + refundable transfers, and every entitled payout must succeed.",
+ "C03": "Same engine; token-factory supply vs State, contract-held LST vs pending batch + refundable LST, per-stake recipient deltas incl. native voucher ledger.",
+ "C04": "1M (quick) pure cases over the 128-bit space against 256-bit reference arithmetic, plus stake-heavy histories checking thresholds and the minted amount.",
+ "C05": "Withdrawal-heavy histories vs a request map and 256-bit pro-rata reference, plus withdrawal of every received batch in three orders on copies.",
+ "C06": "Histories with the clock aligned to deadline-1/deadline/deadline+1; batch list compared with the model after every step.",
+ "C07": "IBC-heavy histories with all outcome assignments, stray callbacks, injected submission failures and every recovery form vs the IBC module's ground truth.",
+ "C08": "Every message variant x 11-13 principals on copies of generated reachable states against a literal authorization table.",
+ "C09": "300k (quick) derivations vs an independent implementation of the ibc-hooks formula with adversarial second pairs, plus impostor histories incl. config changes.",
+ "C10": "The same transaction on a resumed and on a halted copy of generated states; raw storage diffs of halting and resuming.",
+ "C11": "Reward-heavy histories vs 256-bit fee reference, treasury toggles, FeeWithdraw at the boundary, huge fee rates.",
+ "C12": "Handover step sequences on both contracts with the clock at 7d-1s/7d/7d+1s, plus ownership-heavy histories interleaved with all other staking operations.",
+ "C13": "Treasury op sequences with candidate routes derived from allow-listed ones; emitted messages decoded by an independent protobuf reader.",
+ "C14": "Valid configurations with 0-3 field-level corruptions through instantiate, UpdateConfig (all section subsets) and validator changes; independent well-formedness predicates on the Config query.",
+ "C15": "Decoded oracle payload vs 256-bit rates of the post-transaction state in histories, plus the same history with and without an oracle compared step by step.",
+ "C16": "catch_unwind around every entry point of both contracts: hostile histories, hostile single calls, byte-mutated JSON, corrupted configuration messages, treasury sequences.",
+ "C17": "Cursor walks over synthetic stores (up to 400 batches, id extremes, all statuses) vs a full scan; per-user request index vs the model after every history step.",
+ "C18": "Generated pre-upgrade stores (raw legacy JSON) x stored name/version x migrate message: gate table, record-by-record comparison, raw storage diff, recovery after upgrade; treasury gate.",
+ "C19": "Histories and sub-denom spellings on both cargo-feature builds with token-factory bytes decoded independently; canonical traces of the two binaries compared.",
+ "C20": "All 1312 message types instantiated through a dispatch table generated from the current tree; schema-driven independent encoder vs real decode/encode, osmosis-std differential, pinned schema, type URLs.",
+}
 import os
 extra = {}
 p = os.path.join(os.path.dirname(__file__), "manifest_extra.json")
@@ -44,7 +66,7 @@ for pid, (tech, ref) in sorted(T.items()):
         "engine": "protocheck" if pid == "C20" else "harness",
         "level_claimed": {
             "category": "exploration",
-            "text": "Generated-input search against an explicit oracle (reference model / independent implementation / metamorphic relation); finds violations within the generated bounds, never proves absence. Evidence reports cases, distinct non-trivial cases by a stated rule, class distribution and samples.",
+            "text": WHAT.get(pid, "") + " Generated-input search against an explicit oracle; finds violations within the generated bounds, never proves absence. Evidence reports cases, distinct non-trivial cases by a stated rule, class distribution and samples.",
             "design_ref": f"DESIGN.md section {ref}",
         },
         "level_note": "Trusted base: the chain simulator (my reading of wasmd sub-message/reply semantics, ICS-20, ibc-hooks), the reference model, own 256-bit arithmetic / SHA-256 / bech32 / protobuf reader (self-tested at start-up), proptest 1.11 with ChaCha RNG seeded from VERIF_SEED.",
